@@ -145,6 +145,14 @@ impl<const N: usize> BDrv<N> {
                     ev.ret = Ret { k: if err { "err" } else { "n" }, n: enc(n), b: pend, ..Default::default() };
                 }
             }
+            "extend_ref" => {
+                // impl Extend<&'a T> for Copy element types
+                let data: Vec<u8> = gv(st, "vals").iter().map(|x| *x as u8).collect();
+                ev.vals = data.iter().map(|x| *x as i64).collect();
+                if call(&mut ev, None, || b.extend(data.iter())).is_some() {
+                    ev.ret = Ret::unit();
+                }
+            }
             "flush" => {
                 let r: Option<(bool, bool)> = match fam.as_str() {
                     "std" => call(&mut ev, None, || (std::io::Write::flush(b).is_err(), false)),
